@@ -66,11 +66,16 @@ func c01Corpus() []c01issCase {
 		{Threads: []c01issThread{th("obtain", c01nmCanon), th("manage", c01nmCanon)}, Policy: "seq", Pause: map[string]string{"0": "IssueEnd:"},
 			Faults: map[string]int{"0:IssueEnd:": c01fPanic}, Backend: "file", Class: "generic"},
 		{Threads: []c01issThread{th("obtain", c01nmUni), th("obtain", c01nmPuny)}, Policy: "seq", Pause: map[string]string{"0": "IssueEnd:"}, Backend: "file", Class: "spelling-different-locks"},
+		// the instance that held the turn died and left its lock file: the waiting requests take over
+		// (empty file: treated as stale after 8 reads 250 ms apart; old timestamp: removed at once)
+		{Threads: []c01issThread{th("obtain", c01nmCanon), th("manage", c01nmCanon)}, Policy: "rr", Backend: "file", CrashLock: "empty", Class: "generic"},
+		{Threads: []c01issThread{th("renew", c01nmCanon), {Prog: "renew", Name: c01nmCanon, Async: true}}, Seeds: []c01issSeed{{c01nmCanon, "due"}}, Policy: "rr", Backend: "file", CrashLock: "stale", Class: "generic"},
+		{Threads: []c01issThread{th("manage", c01nmCanon), th("manage", c01nmUpper)}, Seeds: []c01issSeed{{c01nmCanon, "due"}}, Policy: "seq", Backend: "file", CrashLock: "stale", Class: "generic"},
 	}
 }
 
 func c01Features(cs c01issCase, o *c01issObs) map[string]any {
-	return map[string]any{"class": cs.Class, "backend": cs.Backend, "threads": len(cs.Threads), "programs": c01issProgKey(cs), "policy": cs.Policy,
+	return map[string]any{"class": cs.Class, "backend": cs.Backend, "crash_lock": cs.CrashLock, "threads": len(cs.Threads), "programs": c01issProgKey(cs), "policy": cs.Policy,
 		"faults": len(cs.Faults), "steps": len(o.Steps), "issues": o.Issues, "overlap": o.Overlap, "save_fault": o.SaveFault}
 }
 
@@ -79,7 +84,7 @@ func c01Emit(w *emit.Writer, cs c01issCase, o *c01issObs) {
 	rec := cs
 	rec.Policy, rec.Script = "script", o.Sched
 	nt := len(cs.Threads) >= 2 && o.Issues >= 1
-	key := fmt.Sprint(c01issProgKey(cs), cs.Backend, cs.Seeds, o.Sched, cs.Faults, cs.CancelWait)
+	key := fmt.Sprint(c01issProgKey(cs), cs.Backend, cs.CrashLock, cs.Seeds, o.Sched, cs.Faults, cs.CancelWait)
 	if cs.Class == "generic" {
 		d := c01Features(cs, o)
 		d["clause"] = "all"
@@ -95,6 +100,9 @@ func c01Emit(w *emit.Writer, cs c01issCase, o *c01issObs) {
 	}
 	w.Hist("class=" + cs.Class)
 	w.Hist("backend=" + map[string]string{"": "memory", "file": "file"}[cs.Backend])
+	if cs.CrashLock != "" {
+		w.Hist("dead_holder_lock_file=" + cs.CrashLock)
+	}
 	w.Hist("programs=" + c01issProgKey(cs))
 	w.Hist(fmt.Sprintf("threads=%d", len(cs.Threads)))
 	w.Hist("policy=" + cs.Policy)
@@ -190,6 +198,12 @@ func c01Random(r *rand.Rand, tier string) c01issCase {
 	// the real FileStorage behind the gate (each hand-over of its lock costs up to 1 s of polling)
 	if r.Intn(map[string]int{"thorough": 30}[tier]+70) == 0 { // quick 1/70, thorough 1/100 of many more
 		cs.Backend = "file"
+		if !spelling {
+			cs.CrashLock = []string{"", "stale"}[r.Intn(2)]
+			if tier == "thorough" { // an empty lock file costs 2 s, a fresh one 10 s
+				cs.CrashLock = []string{"", "stale", "stale", "empty", "empty", "fresh"}[r.Intn(6)]
+			}
+		}
 	}
 	// Unlock failures leave the lock held by definition (C09's excluded class); not injected here
 	return cs
@@ -237,8 +251,17 @@ func runC01(tier string, seed int64, outdir string, replay string) error {
 		}
 		c01Emit(w, cs, o)
 	}
+	if tier == "thorough" {
+		// the dead holder's lock file carries a timestamp of this moment: take-over after the staleness bound (10 s)
+		cs := c01issCase{Threads: []c01issThread{{Prog: "obtain", Name: c01nmCanon}, {Prog: "manage", Name: c01nmCanon}}, Policy: "rr", Backend: "file", CrashLock: "fresh", Class: "generic"}
+		o, err := c01RunIssCase(cs)
+		if err != nil {
+			return fmt.Errorf("corpus case fresh lock of a dead holder: %v", err)
+		}
+		c01Emit(w, cs, o)
+	}
 	r := rand.New(rand.NewSource(seed))
-	n := 1500
+	n := 1100
 	if tier == "thorough" {
 		n = 12000
 	}
